@@ -6,6 +6,7 @@ import Ivg.Gen.Tie.RendererFields
 import Ivg.Gen.Tie.MiscFields
 import Ivg.Gen.Tie.LoggerForwards
 import Ivg.Gen.Tie.Code.Draw
+import Ivg.Gen.Tie.Code.Transform
 import Ivg.Obligations
 /-!
 # C05 — drawing operations reach the rasteriser as the right segments, affinely mapped
@@ -635,4 +636,16 @@ end Ivg.Props.C05
   Ivg.Gen.Tie.absSmoothCubeTo_code_tie,
   Ivg.Gen.Tie.relSmoothCubeTo_code_tie,
   Ivg.Gen.Tie.smoothOK_zero,
-  Ivg.Gen.Tie.smoothOK_step]
+  Ivg.Gen.Tie.smoothOK_step,
+  -- regenerated code (translator, Ivg/Gen/Code) = model, for all inputs: Transform
+  Ivg.Gen.Tie.rectangle_Dx_code_tie,
+  Ivg.Gen.Tie.rectangle_Dy_code_tie,
+  Ivg.Gen.Tie.renderer_absX_code_tie,
+  Ivg.Gen.Tie.renderer_absY_code_tie,
+  Ivg.Gen.Tie.renderer_relX_code_tie,
+  Ivg.Gen.Tie.renderer_relY_code_tie,
+  Ivg.Gen.Tie.renderer_unabsX_code_tie,
+  Ivg.Gen.Tie.renderer_unabsY_code_tie,
+  Ivg.Gen.Tie.renderer_absVec2_code_tie,
+  Ivg.Gen.Tie.renderer_recalcTransform_code_tie,
+  Ivg.Gen.Tie.renderer_recalcTransform_code_tie_frame]
